@@ -12,6 +12,7 @@
 //	fine  seed <s> code <tc> <ta> max <M> pre <client> <n> th <n> (<a|r> <listener> <laddr> <fault>)*
 //	     ## res <n> (<result>)* maps <k> (<listener>:<laddr>:<tc>:<ta>)* rec <absent | a<0|1>r<0|1>:by<id|->:m<tuple|x|->>
 //
+// Z (sched-like cases): 3.5 s of wall-clock time pass while all calls are parked (a stuck call; the claim lease ages).
 // sched: phase granularity (claim / get / quota / create / update / rollback / release); an event t<i>
 // lets thread i run its next phase; C creates the code; X lets the activation period run out (real
 // time); after the events every thread is run to completion in index order.  The Lean model is run
@@ -534,6 +535,9 @@ func b2i(x bool) int {
 	return 0
 }
 
+// stallFor is the length of one Z event; Props/C06.lean (stallNanos) and the driver use the same number
+const stallFor = 3500 * time.Millisecond
+
 var errTiming = errors.New("timing")
 
 // runCase executes one case; scale stretches the activation period (retries after a timing miss).
@@ -786,6 +790,10 @@ func runCaseT(s caseSpec, scale int, thsOut *[]*thread) (obs string, skip string
 				c.mu.Lock()
 				c.afterX = true
 				c.mu.Unlock()
+			case ev == "Z":
+				// wall-clock time passes while every call is parked where it is (a call stuck in a slow storage
+				// operation): the claim key, a lease with a real TTL, gets older
+				time.Sleep(stallFor)
 			case strings.HasPrefix(ev, "t"):
 				i, perr := strconv.Atoi(ev[1:])
 				if perr != nil || i < 0 || i >= len(ths) {
